@@ -49,6 +49,9 @@ type c18Case struct {
 	UpstreamPath string     `json:"upstream_path"`
 	DownPath     string     `json:"downstream_path"`
 	SecondDir    string     `json:"second_directive_path,omitempty"`
+	// AbsentFirst: a directive naming an upstream reference that has no entry in the
+	// upstream log precedes the others; it propagates nothing and must not stop them
+	AbsentFirst bool `json:"absent_first,omitempty"`
 	LogState     string     `json:"log_state"` // entry | none | latest-skipped | updated
 	Repeats      int        `json:"repeats"`
 	Modes        bool       `json:"modes"`
@@ -196,6 +199,7 @@ func c18Gen(r *rand.Rand) c18Case {
 	if r.IntN(4) == 0 {
 		cs.SecondDir = "second/copy"
 	}
+	cs.AbsentFirst = r.IntN(3) == 0
 	return cs
 }
 
@@ -250,6 +254,9 @@ func c18Judge(c *fw.Ctx, cs c18Case) {
 		return
 	}
 	directives := []tuf.PropagationDirective{tufv01.NewPropagationDirective("d1", up.Dir, refMain, cs.UpstreamPath, refMain, cs.DownPath)}
+	if cs.AbsentFirst {
+		directives = append([]tuf.PropagationDirective{tufv01.NewPropagationDirective("d0", up.Dir, "refs/heads/never-recorded", "", refMain, "absent/dir")}, directives...)
+	}
 	if cs.SecondDir != "" {
 		directives = append(directives, tufv01.NewPropagationDirective("d2", up.Dir, refMain, "", refMain, cs.SecondDir))
 	}
